@@ -54,11 +54,12 @@ pub open spec fn radio_post(input: (&[u8], usize), t: u8, r: nom::IResult<(&[u8]
 def apply(fc):
     fc.add_prologue(PROLOGUE)
     fc.add_epilogue(SPEC)
-    fc.contract('parse', within='impl SyncState', ensures=['r == sync_spec(data)'])
-    fc.contract('parse', within='impl SubMessage', requires=['cur_ok(input)', 'slot_timeout <= 7'], ensures=['submsg_post(input, slot_timeout as int, r)'])
-    fc.contract('utc_hour_and_minute', within='impl SubMessage', requires=['cur_ok(data)'], ensures=['submsg_post(data, 1, r)'])
-    fc.contract('slot_offset', within='impl SubMessage', requires=['cur_ok(data)'], ensures=['submsg_post(data, 0, r)'])
-    fc.contract('subm_u16', within='impl SubMessage', requires=['cur_ok(data)'], ensures=['subm_u16_post(data, r)'])
-    fc.contract('parse', within='impl SotdmaMessage', requires=['cur_ok(data)'], ensures=['sotdma_post(data, r)'])
-    fc.contract('parse', within='impl ItdmaMessage', requires=['cur_ok(data)'], ensures=['itdma_post(data, r)'])
-    fc.contract('parse_radio', requires=['cur_ok(input)'], ensures=['radio_post(input, msg_type, r)'])
+    fc.contract('parse', within='impl SyncState', ensures=['r == sync_spec(data)'], tags=['C12', 'C16'])
+    fc.lemma('sync_injective', ['C12'])
+    fc.contract('parse', within='impl SubMessage', requires=['cur_ok(input)', 'slot_timeout <= 7'], ensures=['submsg_post(input, slot_timeout as int, r)'], tags=['C16'])
+    fc.contract('utc_hour_and_minute', within='impl SubMessage', requires=['cur_ok(data)'], ensures=['submsg_post(data, 1, r)'], tags=['C16'])
+    fc.contract('slot_offset', within='impl SubMessage', requires=['cur_ok(data)'], ensures=['submsg_post(data, 0, r)'], tags=['C16'])
+    fc.contract('subm_u16', within='impl SubMessage', requires=['cur_ok(data)'], ensures=['subm_u16_post(data, r)'], tags=['C16'])
+    fc.contract('parse', within='impl SotdmaMessage', requires=['cur_ok(data)'], ensures=['sotdma_post(data, r)'], tags=['C16'])
+    fc.contract('parse', within='impl ItdmaMessage', requires=['cur_ok(data)'], ensures=['itdma_post(data, r)'], tags=['C16'])
+    fc.contract('parse_radio', requires=['cur_ok(input)'], ensures=['radio_post(input, msg_type, r)'], tags=['C16'])
